@@ -15,6 +15,7 @@ EXTENDS Integers, Sequences, FiniteSets, TLC, Json
 CONSTANTS Lens,        \* sequence of body lengths of the frames sent
           MaxReads,    \* number of network reads the stream is cut into
           EofAt,       \* set of byte offsets at which the peer may end the stream (Total = after everything)
+          Cuts,        \* set of byte offsets at which a network read may end (all offsets for short streams)
           RecordHist
 
 Hdr == 20
@@ -41,7 +42,7 @@ Limit == CHOOSE c \in EofAt : \A d \in EofAt : c >= d      \* (one EofAt value p
 
 \* the network hands over the next chunk; the last permitted read carries everything up to the end
 Deliver(n) ==
-  /\ ~eof /\ nreads < MaxReads /\ n >= 1
+  /\ ~eof /\ nreads < MaxReads /\ n >= 1 /\ (fed + n) \in Cuts
   /\ \E c \in EofAt : fed + n <= c /\ (nreads = MaxReads - 1 => fed + n = c)
   /\ fed' = fed + n /\ nreads' = nreads + 1
   /\ hist' = IF RecordHist THEN Append(hist, n) ELSE hist
@@ -71,7 +72,7 @@ ReaderFail ==
   /\ phase' = "failed"
   /\ UNCHANGED <<fed, eof, cons, k, fstart, delivered, nreads, hist>>
 
-Next == (\E n \in 1..Total : Deliver(n)) \/ Eof \/ ReaderStep \/ ReaderFail
+Next == (\E c \in Cuts : c > fed /\ Deliver(c - fed)) \/ Eof \/ ReaderStep \/ ReaderFail
 Spec == Init /\ [][Next]_vars
 
 -----------------------------------------------------------------------------
